@@ -8,6 +8,8 @@ import (
 	"go/constant"
 	"go/token"
 	"go/types"
+	"os"
+	"runtime/debug"
 	"strconv"
 	"strings"
 
@@ -260,6 +262,9 @@ func (ec *evalCtx) evalIdent(x *ast.Ident) Value {
 					return ec.e().globalVar(ec.st, o)
 				}
 			}
+		}
+		if os.Getenv("GOVC_DEBUG") != "" {
+			debug.PrintStack()
 		}
 		panic(unsupported("contract refers to unknown identifier %q", x.Name))
 	}
